@@ -171,6 +171,19 @@ def r_orth(ctx, rng, Y, n, fam):
                 f'use_stab={stab})')
             ctx.nontrivial(['orthogonalize', fam, k == 0, k == d - 1, stab, d])
     scalars(ctx, Y, f'input [{fam}]')
+    # the same degenerate family spread over >= 64 binary / 32 quaternary
+    # modes: the element count does not fit into an int64
+    dd, nn = (int(rng.integers(64, 70)), 2) if rng.random() < 0.6 else (32, 4)
+    if fam.startswith('zero'):
+        Yb = [np.zeros((1, nn, 1)) for _ in range(dd)]
+    elif fam == 'rank1':
+        Yb = [rng.uniform(0.5, 1.5, size=(1, nn, 1)) for _ in range(dd)]
+    else:
+        rb = [1] + [2] * (dd - 1) + [1]
+        Yb = [rng.uniform(0.2, 0.8, size=(rb[k], nn, rb[k + 1])) / 1.5
+            for k in range(dd)]
+    scalars(ctx, Yb, f'{dd} modes of size {nn} [{fam}]')
+    ctx.event('element-count-above-int64')
     accuracy_ok(ctx, Y, Y, f'accuracy(Y, Y) [{fam}]')
     X = gen.cores(rng, n, gen.rand_ranks(rng, d, 2), 'normal')
     a = accuracy_ok(ctx, X, Y, f'accuracy(X, Y) [{fam}]')
